@@ -47,7 +47,8 @@ CLAIMED = {
        "limiting, dictionary wrap, and therefore losslessness for all inputs/configurations. Also (LZMA2) lzma_lzma_encoder_reset() is called in lzma2_encode exactly when need_state_reset is set, and the header writer derives and clears the same flags."
        + " Further rules: (ORDER) lzma_lzma_encode commits its position bookkeeping before the in-loop rc_encode() can suspend, and the LZMA2 history reserve is applied after the LZMA encoder filled in lz_options; (OUTPOS) rc_shift_low and rc_shift_low_dummy advance *out_pos in single steps, each behind `*out_pos == out_size`; the LZ/LZMA decoder dictionary sibling rule of C03."
        + " Round-3 rules: (WINDOW) hash-chain/binary-tree walkers stop at delta >= cyclic_size; (LIMITS) the LZMA2 chunk cut-off leaves OPTS+1 bytes; (DICTFRESH) dict->full is recomputed after dict->pos moved."
-       + " LIMITS now derives the needed cut-off margin as OPTS + RC_SYMBOLS_MAX (read-ahead of one optimum run plus the output of one symbol).",
+       + " LIMITS now derives the needed cut-off margin as OPTS + RC_SYMBOLS_MAX (read-ahead of one optimum run plus the output of one symbol)."
+       + ' (DRAIN) a BCJ/simple coder reports the end only after its buffer was drained; the C12 UPDATE and C02 BOUND rules are evaluated here too.',
   technique="path-sensitive event-count dataflow on the CFG (exactly-once / must-precede); post-dominator must-follow; field-coverage (E-COVER) with loop-bound vs array-dimension comparison; who-may-write table; table agreement",
   ref="4/C01"),
  "C20": dict(
@@ -63,7 +64,8 @@ CLAIMED = {
        "characters, constant on sed failure; (OPT) -- before every file operand; (STATUS) status captures receive only "
        "`echo $?`, xzdiff checks readability first and maps decompressor failure to 2. NOT decided: equality of output and "
        "exit status with grep/diff/cmp, behaviour of sed/expr/grep themselves. Also: xzdiff decompresses each operand with the decompressor chosen from its own suffix; xzgrep's exit status accumulator only moves under a test of its current value."
-       + " xzdiff's three suffix lists are identical.",
+       + " xzdiff's three suffix lists are identical."
+       + " (STATUS) xzgrep's result accumulator is evaluated over all (res, r) pairs; xzdiff selects a decompressor for each operand from its own name and keeps stdin for a '-' operand.",
   technique="shell AST taint and quoting-context analysis; idiom (typestate) rule on accumulator stores; case-arm coverage of the quote character; constant evaluation of the sed programs",
   ref="4/C20"),
  "C15": dict(
@@ -80,7 +82,8 @@ CLAIMED = {
        "count, releases the tail unfiltered at EOF. NOT decided: the round trip for all inputs and slicings as such, "
        "RISC-V AUIPC pair arithmetic, IA-64 slot arithmetic, x86 prev_mask evolution as a function of all inputs. Detection predicates are evaluated by symbolic bit evaluation of the path conditions (independent of the statement shape). Also (INITCONS) now_pos / history are re-initialised on every init path."
        + " Further rules: (READFIRST) delta history/pos and BCJ buffers a coding function reads first are reset by every OK init path; IA-64 slot predicate equals opcode 5 / btype 0 on all assignments of the relevant bits; call_filter on coder->buffer does not depend on end_was_reached."
-       + " (SCAN) all nine scan loops visit exactly the positions p with p + window <= size.",
+       + " (SCAN) all nine scan loops visit exactly the positions p with p + window <= size."
+       + ' (PROTO compact) the BCJ wrapper moves filtered and unfiltered positions by the same amount when it compacts its buffer.',
   technique="AST/CFG shape rule for direction symmetry; exhaustive finite-domain evaluation of branch predicates from the CFG; exact bit-routing abstract evaluation of shift/mask/or code vs reference tables; edge-cut must-pass",
   ref="4/C15"),
  "C19": dict(
@@ -91,7 +94,8 @@ CLAIMED = {
        "success path passes the directory, regular-file, setuid/setgid, sticky and hard-link refusals that apply; exhaustive "
        "evaluation of io_copy_attrs' two permission expressions over all 4096 mode values (never broader, no special bits); "
        "owner->group->mode->timestamps from the source; --stdout/--test imply --keep; exit status mapping. Name invertibility "
-       "for all byte strings is NOT decided. Also (SUFPOS) test_suffix examines src_name[src_len - suffix_len - 1] and compares exactly the last suffix_len bytes.",
+       "for all byte strings is NOT decided. Also (SUFPOS) test_suffix examines src_name[src_len - suffix_len - 1] and compares exactly the last suffix_len bytes."
+       + ' (ATTR) the full permission bits are copied only when the group could be set.',
   technique="table joins, finite-domain abstract evaluation over option combinations and all mode values, edge-cut must-pass",
   ref="4/C19"),
  "C18": dict(
@@ -102,7 +106,8 @@ CLAIMED = {
        "provenance rules of the sparse-file optimisation (exact accounting, hole before data, tail, decompress mode, regular "
        "file at end, O_APPEND restored); decoder flag construction. Byte equality across sinks/thread counts is NOT decided. Also: a zero-length write never reaches the lseek that materialises a pending hole; the decoder flags xz sets are exactly TELL_UNSUPPORTED_CHECK, CONCATENATED, IGNORE_CHECK (no FAIL_FAST)."
        + " is_sparse examines every word of the buffer; coder_normal success rules of C17."
-       + " The final sparse hole is materialised also when decoding failed (standard output is kept).",
+       + " The final sparse hole is materialised also when decoding failed (standard output is kept)."
+       + ' (SPARSE position-probe) sparse mode is enabled for stdout only after the current position was compared with the file size; (PERFILE) per-file flags are reset for every file.',
   technique="finite-domain path-sensitive reachability (edge/block cuts), dominance and provenance rules over call arguments",
   ref="4/C18"),
  "C17": dict(
@@ -127,7 +132,8 @@ CLAIMED = {
        "marker only for FINISH; lz_encode resets mf.action on every non-OK return; pending bytes replayed only with input; "
        "update functions restricted to their safe states, validate before storing, and cannot change Filter IDs; action "
        "conversion table. That the flushed prefix decodes to the input is NOT decided. Also (BTFLUSH) binary-tree match finders defer to move_pending() during LZMA_SYNC_FLUSH; (PROPS) lzma_lzma_encoder_reset recomputes the lc/lp/pb masks; stream_encoder_update clears block_encoder_is_initialized before trying a new chain."
-       + " get_thread hands every woken worker the cached filter chain.",
+       + " get_thread hands every woken worker the cached filter chain."
+       + ' (MTFLUSH) the threaded encoder reports a flush complete only when the output queue is empty and LZMA_FINISH only after the Index was encoded.',
   technique="must-pass-through (edge cut) on finite-domain product graphs, dominator rules, table comparison",
   ref="4/C12"),
  "C09": dict(
@@ -141,7 +147,8 @@ CLAIMED = {
        + " Further rules: direct-mode clear_cache/threads_end before the single-thread decoder allocates; lz decoder reallocates the dictionary only when the size differs; memusage is reported on LZMA_MEMLIMIT_ERROR."
        + " xz compares the usage with the limit of the current operation mode."
        + " (NEEDED) the amount compared with the hard limit before LZMA_MEMLIMIT_ERROR is what memconfig reports; (CLAMP) an order between limit members established by a clamp is re-established at every later store; (STALENEXT) memconfig uses a lazily initialised nested decoder only behind a test of coder->sequence."
-       + " (SATURATE) sums of memory-usage figures that may be UINT64_MAX are saturated.",
+       + " (SATURATE) sums of memory-usage figures that may be UINT64_MAX are saturated."
+       + ' (USAGE) memconfig callbacks report the figure the limit was checked against; (TERMS) LZMA2 history reserve and the MT-encoder default limit are part of the sums compared with the limit.',
   technique="must-pass-through (edge cut) on finite-domain product graphs, table joins, dominance rules",
   ref="4/C09"),
  "C04": dict(
@@ -154,7 +161,8 @@ CLAIMED = {
        "results are NULL-tested. Absence of ALL memory errors, arithmetic UB and termination are NOT decided. Also (ALLOCSZ) input-controlled element counts in C1 + n*C2 allocation sizes are clamped so the size cannot wrap; the LOCALOWN (no leak on rejected Block Headers) and PROGRESS (worker publishes progress unconditionally) rules shared with C10/C07."
        + " Further rules: BUF_ERROR from lzma_index_hash_decode cannot escape stream_decode/stream_decode_mt (call only with *in_pos < in_size)."
        + " (WAIT) lost-wake-up rule of C07 on the threaded decoder; dict_get/dict_repeat sibling and DICTFRESH rules."
-       + " (ALLOCSZ lower bound) a member used as the element count of a header+array allocation whose element 0 is written at once is never stored as 0.",
+       + " (ALLOCSZ lower bound) a member used as the element count of a header+array allocation whose element 0 is written at once is never stored as 0."
+       + " (DISTVALID) every use of a decoded match distance is dominated by the dictionary-validity test; (SEEK) rules of C13 for the file-info decoder's seek target.",
   technique="must-availability dataflow on a finite-domain product graph, interprocedural return-code sets with slot typestate, type-agreement joins",
   ref="4/C04"),
  "C11": dict(
@@ -187,7 +195,8 @@ CLAIMED = {
        "chain rules and chunk/stream end conditions; every state enumerator of 12 decoder machines has a reachable case. "
        "Does NOT decide that accepted streams decode to the specified bytes. Also (DICTRESET) lz_decoder_reset() re-initialises every lzma_dict member that decoding modifies; (RESUME) the liveness/save-restore rule of C06 applied to the decoder functions."
        + " Further rules: (BLOCK) the block_decode obligations of C05; (RESET) the probability reset rule of C01 on the decoder."
-       + " (SEQLABEL) each suspension of lzma_decode stores the state whose case label it sits under; (FASTSLOW) both copies of the symbol decoder expand literal_subcoder identically; (DICTFRESH).",
+       + " (SEQLABEL) each suspension of lzma_decode stores the state whose case label it sits under; (FASTSLOW) both copies of the symbol decoder expand literal_subcoder identically; (DICTFRESH)."
+       + ' (DICTFRESH) a helper that copies into the dictionary recomputes dict.full.',
   technique="finite-domain abstract interpretation of decision expressions vs spec tables, guard obligations, reachability on the product graph",
   ref="4/C03"),
  "C07": dict(
@@ -200,7 +209,8 @@ CLAIMED = {
        "These are necessary conditions; absence of all races/deadlocks and output equality are NOT decided. Also (STOPACK) the worker never overwrites THR_EXIT; (QUIESCE/INITCONS) re-initialisation stores to worker-visible members only after threads_end and initialises session members on every path; (ACCT) amounts added to mem_in_use equal the per-thread amounts the worker subtracts and those are main-thread-only; (PROGRESS) partial-output enabling and progress publication are controlled by exactly the documented conditions."
        + " Further rules: worker-wait: the main thread waits only while a worker can still make progress; STOPACK/QUIESCE as in C08."
        + " (WAITARG) states that cannot consume input pass waiting_allowed = true; (OUTQRESET) lzma_outq_init resets read_pos."
-       + " PROT also rejects contradicting lock-free excuses (an 'only this thread writes it' read next to a worker store): one known finding (partial_update).",
+       + " PROT also rejects contradicting lock-free excuses (an 'only this thread writes it' read next to a worker store): one known finding (partial_update)."
+       + ' (WAITPRED) every field whose writers signal a condition is tested by a wait predicate on that condition.',
   technique="must-lockset dataflow over a finite-domain product graph, protected-field table, must-pass rules",
   ref="4/C07"),
  "C08": dict(
@@ -210,7 +220,8 @@ CLAIMED = {
        "Index encoder finished; worker errors reported through worker_error(). Found the early thread_error reset on "
        "re-initialisation (fixed). Schedule-independence of the output bytes is NOT decided. Also (STOPACK) a stopped worker reports idle only after its last access to coder-mutex data and never overwrites THR_EXIT; (QUIESCE) the init function stores to worker-visible members only after threads_stop/threads_end; (INITCONS) members (threads_free, thr, ...) initialised on some OK paths are initialised on all."
        + " Further rules: progress-transfer-atomic: a finished worker's progress moves from the per-thread to the coder totals in one critical section."
-       + " (SIZEKEY) coder->block_size changes only together with the workers' input buffers; (OUTQRESET); get_progress takes one snapshot under coder->mutex.",
+       + " (SIZEKEY) coder->block_size changes only together with the workers' input buffers; (OUTQRESET); get_progress takes one snapshot under coder->mutex."
+       + " (WAITPRED) as in C07: the worker error flag is part of wait_for_work()'s predicate.",
   technique="must-lockset dataflow over a finite-domain product graph, protected-field table, must-pass rules",
   ref="4/C08"),
  "C10": dict(
@@ -222,7 +233,8 @@ CLAIMED = {
        "for every failing k at run time. Also (INITORD) members released by end() are initialised before any return after next->coder is published; (CACHEKEY) a size key of a cached allocation is updated only after the allocation succeeded; (LOCALOWN) filter options held in function-local arrays are freed or transferred on every path."
        + " Further rules: (ALIAS) a freed member is cleared or overwritten before any path can free it again, with the callers that clear it listed."
        + " (SIZEKEY) a member that gives the allocated size of a kept buffer changes only with the buffer (7 pairs discovered from allocation sites); CACHEKEY fail-path: the key is invalidated when the re-allocation fails."
-       + " (SYNCEND) every mutex/condition variable initialised for a coder is destroyed by its end function or by the joined worker.",
+       + " (SYNCEND) every mutex/condition variable initialised for a coder is destroyed by its end function or by the joined worker."
+       + ' (LOCALIDX) an index allocated by a function is freed on each of its failing paths; (LOCALOWN) lzma_raw_coder_init frees the partially built chain on failure.',
   technique="ownership/effect dataflow over clang CFGs, field-coverage joins over record layouts, unused-result rule on resolved callees",
   ref="4/C10"),
  "C13": dict(
@@ -234,7 +246,8 @@ CLAIMED = {
        "dominating bound check. Does NOT decide tree balancing, locate results or size arithmetic. Also (SEEKSTATE) file_info_decode advances coder->sequence after every compound update of its position bookkeeping before it can return LZMA_SEEK_NEEDED; (PROV) Block numbers derive from the Stream's Record count, xz --list reads the Check at total_size - check size."
        + " Further rules: (APPLY) padding found / bytes used in one call are applied to stream_padding etc. on every non-fatal way out; PROV also: number-base, totals line sums lzma_index_file_size."
        + " (IDXDEC) index_decode ends only through its checks; (TREEWALK) no link member read after index_tree_append; (CURPOS) file_cur_pos advances only by application input."
-       + " (ITERSTATE) the iterator encodes 'Stream without Record group' with its own method value.",
+       + " (ITERSTATE) the iterator encodes 'Stream without Record group' with its own method value."
+       + ' (TOTALS) lzma_index_append bounds the running totals it maintains.',
   technique="field-coverage and effect-ordering dataflow on the product graph, dominator-based guard rules, who-may-write",
   ref="4/C13"),
  "C05": dict(
@@ -255,7 +268,8 @@ CLAIMED = {
        "Does NOT decide output equality across slicings in general. Also (END) resumable encoders return LZMA_STREAM_END only from their final state; (SLICE) size-mismatch errors of the Block decoder only when the other buffer had room; (INITCONS) a session member initialised on some OK paths of an init function is initialised on all; (INITONCE) coder->sequence is advanced before any non-fatal return that follows a nested coder initialisation."
        + " Further rules: (READFIRST) every member a coding function can read before storing to it is stored by the init function on all OK paths (whole-record, 109 instances); (APPLY) an amount measured in one call is applied to its persistent member on every non-fatal way out; (ACCUM); (PROV) match-finder window geometry keeps after_size + match_len_max bytes ahead; (END/SLICE) Block encoder ends only after the Check was copied."
        + " (SEQLABEL) as in C03."
-       + " (OUTGUARD) a decoder's state loop is not guarded by output space when some state needs none.",
+       + " (OUTGUARD) a decoder's state loop is not guarded by output space when some state needs none."
+       + ' (ENCRESET) lzma_lzma_encoder_reset() stores to every counter that triggers recomputation of a price table (the tables are caches of the probabilities).',
   technique="liveness + reaching definitions over resume labels (clang CFG), finite-domain product-graph dataflow, call-graph reachability",
   ref="4/C06"),
 }
